@@ -49,6 +49,7 @@ func (n *node[T]) buildIndexes() {
 	if n.indexes == nil {
 		n.indexes = make(map[byte]int, indexesSize)
 	}
+	clear(n.indexes) // 删除节点之后，旧的索引不再有效。
 
 	for index, node := range n.children {
 		if node.segment.Type == syntax.String {
@@ -178,6 +179,7 @@ func (n *node[T]) countMethods(methods map[string]int) {
 func (n *node[T]) clean(prefix string) {
 	if len(prefix) == 0 {
 		n.children = n.children[:0]
+		n.indexes = nil
 		return
 	}
 
